@@ -90,7 +90,7 @@ impl Check for C02Check {
             oracle: "ground-instances".into(),
             program,
             cfg,
-            extra: json!({"order": order, "perm_seed": st.consumer.next_u64() % 1_000_000}),
+            extra: json!({"order": order, "perm_seed": st.consumer.next_u64() % 1_000_000, "dfs": st.consumer.chance(1, 8)}),
         }
     }
 
@@ -104,7 +104,7 @@ impl Check for C02Check {
     fn rule(&self) -> String {
         "Every 64th case is one of the macro-written surface programs for this property (sim/src/surface.rs: list literals with literal tails, three-head improper lists, distinct wildcards, nested empty lists, negative literals in == and !=). case = pure tree program (==, !=, conj, conde, fresh; 1-2 query and 0-2 hidden variables; terms of depth <= 2 over \
          {0, 1, \"a\"} with lists, improper lists and two #[compound] types; a fifth of the programs contain a \
-         family of related disequalities) posted in the generated, the reversed or a seeded random order, x (iteration-order policy over \
+         family of related disequalities) posted in the generated, the reversed or a seeded random order (one case in eight as the body of a dfs block), x (iteration-order policy over \
          run_constraints / push_and_normalize / normalize / purify / DisequalityConstraint::{run,subsumes,walk_star}, \
          yields). Oracle R2: over the universe U = atoms (program constants + 2 fresh atoms + []) + pairs + two-element \
          lists, the set of query-variable assignments covered by the engine's answers (term matched, every reported \
@@ -130,6 +130,7 @@ impl Check for C02Check {
                 gen_tree::permute(&case.program, &mut r, true)
             }
         };
+        let p = wrap_dfs_if(&p, case.extra["dfs"].as_bool() == Some(true));
         let run = run_program(&p, &case.cfg, 10_000, false);
         facts.trace_hash = mix(&[run.stats.trace_hash, order, perm_seed]);
         facts.stats.push(run.stats.clone());
